@@ -457,10 +457,10 @@ class Run:
         if st == 'inconclusive' and h.get('optional') and 'timeout' in rec['why']:
             rec['verdict'] = 'no-verdict(optional)'   # attempted, not counted, not claimed
             return
-        if st == 'inconclusive' and self.tier == 'thorough' and rec['why'].startswith('timeout'):
-            # thorough tier: a query that exhausts its time budget is recorded as unexplored (not counted as held, listed in the evidence and on stdout);
+        if st == 'inconclusive' and self.tier == 'thorough' and (rec['why'].startswith('timeout') or 'out of memory' in rec['why'].lower()):
+            # thorough tier: a query that exhausts its time or memory budget is recorded as unexplored (not counted as held, listed in the evidence and on stdout);
             # the quick tier stays strict, so a query that silently stops returning is noticed on every change
-            rec['verdict'] = 'no-verdict(timeout)'
+            rec['verdict'] = 'no-verdict(timeout)' if rec['why'].startswith('timeout') else 'no-verdict(out of memory)'
             with LOCK: self.__dict__.setdefault('no_verdicts', []).append(qn)
             return
         if st in ('inconclusive', 'unwind', 'vacuous'):
@@ -551,7 +551,7 @@ class Run:
         if self.problems:
             for p in self.problems: print('INCONCLUSIVE: ' + p)
             return 2
-        for qn in self.__dict__.get('no_verdicts', []): print('NO-VERDICT: %s (time budget exhausted; not counted as held)' % qn)
+        for qn in self.__dict__.get('no_verdicts', []): print('NO-VERDICT: %s (time or memory budget exhausted; not counted as held)' % qn)
         print('OK property=%s tier=%s queries=%d held=%d wall=%.0fs' % (self.pid, self.tier, len(self.queries), len([q for q in self.queries if q['verdict'] == 'holds']), wall))
         return 0
 
